@@ -173,7 +173,7 @@ TEXT = {
     "C08": {
         "level": "Proof (partial: a fragment). Explored on the real entry points: every golden input not marked !bad_ (the maintainers' rendering of each documented production) and its keyword/pseudo-keyword re-casings through the specific entry point and ParseStatement (equal trees), and ';'-joined lists through the list entry points. Plus the reference grammar G written from the documentation (harness/grammar*.go: 202 non-terminals, 504 alternatives; systematic enumeration of every alternative, every optional on/off, list lengths min..min+2, keyword-like identifiers in both cases, and seeded random derivations: 12 k sentences quick / 146 k thorough), each sentence through its entry point and ParseStatement with equal trees and with the lexer's tokens compared to the generator's own terminal list. Ten documented forms that memefish rejects are recorded findings (G-known:*), ten others were repaired. Proved for the ParseType entry point: the documented type grammar G_T (MF/Spec/TypeGrammar.lean, over token kinds, '>>' and '<>' standing for two one-byte tokens) is exactly what the model of ParseType accepts and the tree returned is the derivation tree: soundness (type_sound), completeness for ALL derivations with a concrete fuel (type_complete, type_complete_tree), unambiguity (type_unique), the two as one equivalence (type_accepts_iff); no side condition: since the repair of lookaheadSimpleType a named type whose first path component reads as a simple type name (date.T, string.x) is accepted as G_T says. The model is tied to memefish.ParseType by the TYPE channel (all type texts up to a size bound in six spellings, all token sequences up to length 4 / 6 over the type vocabulary, mutations, soups). Proved for the SELECT core of ParseQuery / ParseStatement (Task X, model MF/Model/Query.lean tied to the code by the QUERY channel on every run): an accepted token list is the yield of the returned tree and a derivation of the documented grammar G_Q (MF.Props.C08.query_sound, query_sound_top), and on inputs starting with SELECT the statement entry point returns exactly the query entry point's answer (query_entry_points_agree).",
         "design_ref": "DESIGN.md §4 C08",
-        "note": "Theorems cover the ParseType entry point only and are about the models (tied to the code by the LEX and TYPE channels); every other entry point and node kind is exploration. Known findings are listed in known-findings.txt.",
+        "note": "Theorems cover the ParseType entry point, the expression fragment (C07) and the SELECT core of ParseQuery / ParseStatement, and are about the models (tied to the code by the LEX, TYPE, EXPR and QUERY channels); every other entry point and node kind is exploration. Known findings are listed in known-findings.txt.",
         "technique": "Lean 4 proof for ParseType (function-for-function parser model with positions, grammar as an inductive relation, soundness + completeness + uniqueness) and for the SELECT core of ParseQuery/ParseStatement (function-for-function model, soundness against the documented grammar, entry-point agreement) + TYPE/QUERY/EXPR correspondence channels + regenerated parser.go data (simpleTypes, parseType dispatch) + property predicate evaluated on the implementation (corpus, reference grammar G, grafts, edits, mutations)",
     },
     "C09": {
